@@ -46,6 +46,11 @@ pub fn explore(
     max_states: usize,
 ) -> Result<Graph, String> {
     let block = dl::parse(code, preserve_tokens)?;
+    explore_from(block, code, rules, max_depth, max_states)
+}
+
+/// same search, starting from a given tree (e.g. the state after a fixed prefix of rules)
+pub fn explore_from(block: Block, code: &str, rules: &[Box<dyn Rule>], max_depth: usize, max_states: usize) -> Result<Graph, String> {
     let resources = Resources::from_memory();
     let mut graph = Graph {
         nodes: vec![Node {
